@@ -249,6 +249,9 @@ static void em_init(int nops) {
     em_glive = nd_i32();
     __CPROVER_assume(em_glive >= 0 && em_glive <= 0xFFFF && !(em_glive >= 0xF0 && em_glive <= 0xFF));
     em_wr = nd_int() & 1;
+#ifdef EM_FIX_WR
+    em_wr = EM_FIX_WR;      /* the unit covers one of the two cases (the other one: its sibling unit) */
+#endif
     /* requires: a written destination is a place, not a literal */
     if (em_wr) __CPROVER_assume(!(em_s[0].flags & JANET_SLOT_CONSTANT));
 }
@@ -305,8 +308,12 @@ static void em_check(int32_t label, uint8_t op, int shape, uint32_t immfield) {
     if (n - EM_PRE > 1) REACH("emit: operands were moved");
     REACH("emit: normal return");
 }
+#if defined(EM_FIX_WR) && EM_FIX_WR == 0
+#define EM_REACH_WR() do { } while (0)
+#else
 #define EM_REACH_WR() do { if (!em_errors && em_wr) { REACH("emit: written destination"); if (em_is_local(em_s[0]) && em_s[0].index > 0xFF) REACH("emit: far destination written back"); \
                                                       if (em_is_upvalue(em_s[0])) REACH("emit: upvalue destination"); if (em_s[0].flags & JANET_SLOT_REF) REACH("emit: reference destination"); } } while (0)
+#endif
 
 /* ------------------------------------------------------------------ entries: the public emitters */
 void h_emit_s(void) {
@@ -586,7 +593,7 @@ void h_const(void) {
     __CPROVER_assert(inner.consts == (Janet *)0 && mid.consts == (Janet *)0, "comp.const: constants go to the enclosing function's table, not to a block scope's");
     if (depth == 2) REACH("const: through two block scopes");
 }
-/* the limit: a table of 0xFFFF entries (the largest index the 16-bit field of JOP_LOAD_CONSTANT can name is 0xFFFF) refuses */
+/* (the limit test len >= 0xFFFF lies behind a loop over the whole table: not covered, see the unit's bound) */
 #endif
 
 /* ------------------------------------------------------------------ the real allocator: a temporary taken and released (-DEM_REAL_REGALLOC, src emit.c + regalloc.c) */
